@@ -14,7 +14,7 @@ open GV.Model.ValueConservation
 
 /-- certificates that exist before Conway -/
 def legacyCert : Cert → Bool
-  | .sreg | .sdereg | .sdeleg | .pret | .preg _ _ | .pregRetiring _ => true
+  | .sreg | .sdereg | .sdeleg | .pret | .preg _ _ | .pregRetiring _ | .genesis | .mir _ => true
   | _ => false
 
 /-- accepted by the rules modelled here: the conservation rule and, in Conway and
@@ -266,6 +266,58 @@ def validateTwice (t : Tx) : (Verdict × Bool × Bool) × (Verdict × Bool × Bo
 
 theorem revalidation_same (t : Tx) : (validateTwice t).2 = (validateTwice t).1 := rfl
 
+/-! ### across transactions: what is produced is exactly the outputs -/
+
+/-- The UTxO a phase-2-valid transaction produces is exactly its outputs, in order,
+    numbered from 0. -/
+
+theorem produced_is_outputs (t : Tx) (hv : t.valid = true) :
+    (producedUtxo t).map (·.2) = t.outs ∧ (producedUtxo t).map (·.1) = List.range t.outs.length := by
+  unfold producedUtxo
+  simp only [hv, if_true, List.map_map]
+  constructor
+  · simp [Function.comp_def, List.zipIdx_map_fst]
+  · simp [Function.comp_def, List.zipIdx_map_snd, List.range_eq_range']
+
+/-- Spending a set of UTxO entries into outputs of the same values balances — rule and
+    ledger formula agree, in every era, for any coin amounts and asset bundles. -/
+theorem spendAll_balances (t : Tx) (p : List Out) :
+    rule (spendAll t p) = .ok ∧ specConserved (spendAll t p) = true ∧ badInputs (spendAll t p) = false := by
+  have hres : ∀ i ∈ (spendAll t p).ins, i.resolvable = true := by
+    intro i hi
+    simp only [spendAll, List.mem_map] at hi
+    obtain ⟨o, _, rfl⟩ := hi; rfl
+  have hz : zmint (spendAll t p) = 0 := by simp [zmint, spendAll, mintQty]
+  have hspec : specConserved (spendAll t p) = true := by
+    rw [spec_iff]
+    constructor
+    · simp [specConsumedCoin, specProducedCoin, spendAll, sumNat, outsCoin, newPoolIds,
+        List.map_map, Function.comp_def]
+    · rw [List.all_eq_true]
+      intro id _
+      simp [specConsumedTok, spendAll, mintQty, outsTok, sumNat, List.map_map, Function.comp_def]
+  refine ⟨?_, hspec, ?_⟩
+  · rw [rule_ok_iff, tokOk_eq _ hres hz]
+    refine ⟨by simp [spendAll], ?_, fun _ => (spec_iff _).1 hspec |>.2⟩
+    unfold consumedCoin producedCoin insCoin
+    rw [filter_resolvable _ hres, hz]
+    simp [spendAll, sumNat, outsCoin, countNew, List.map_map, Function.comp_def]
+  · simp only [badInputs]
+    rw [List.any_eq_false]
+    intro i hi
+    simp [hres i hi]
+
+/-- The follow-up transaction of the harness op — spend everything `t` produced into
+    outputs carrying the values `t`'s outputs state — is accepted and conserved. If
+    validation of `t` changed what `t` reports as produced, or `Produced()` is not the
+    outputs, the real follow-up transaction does not balance: that is the `next=` field. -/
+theorem followUp_balances (t : Tx) :
+    rule (followUp t) = .ok ∧ specConserved (followUp t) = true ∧ badInputs (followUp t) = false :=
+  spendAll_balances t _
+
+theorem followUp_outputs (t : Tx) (hv : t.valid = true) : (followUp t).outs = t.outs := by
+  unfold followUp spendAll; exact (produced_is_outputs t hv).1
+
 /-! ### witnesses of the recorded findings (the code departs from the formula) -/
 
 def wCertAmount : Tx where
@@ -415,6 +467,7 @@ def namedCerts : List (String × Cert) :=
    ("StakeDelegationCertificate", .sdeleg), ("PoolRetirementCertificate", .pret),
    ("VoteDelegationCertificate", .vdeleg), ("PoolRegistrationCertificate", .preg true 1),
    ("PoolRegistrationCertificate", .preg false 1), ("PoolRegistrationCertificate", .pregRetiring 1),
+   ("GenesisKeyDelegationCertificate", .genesis), ("MoveInstantaneousRewardsCertificate", .mir 5),
    ("RegistrationCertificate", .reg 5), ("DeregistrationCertificate", .unreg 5 7),
    ("StakeRegistrationDelegationCertificate", .srd 5), ("VoteRegistrationDelegationCertificate", .vrd 5),
    ("StakeVoteRegistrationDelegationCertificate", .svrd 5), ("RegistrationDrepCertificate", .dreg 5),
@@ -463,6 +516,16 @@ theorem pool_states (kd pd : Nat) (id : Nat) :
     depositLegacy kd (.pregRetiring id) = 0 ∧ depositConway kd (.pregRetiring id) = 0 ∧
     newPoolIds [.pregRetiring id, .preg false id] = [] := by
   simp [countNew, depositLegacy, depositConway, newPoolIds]
+
+/-- MIR and genesis-delegation certificates leave the balance alone, whatever the amount
+    moved between the pots: adding one to a transaction changes neither the rule's verdict
+    inputs nor the formula's. -/
+theorem mir_genesis_neutral (kd dd a : Nat) :
+    refundLegacy kd (.mir a) = 0 ∧ depositLegacy kd (.mir a) = 0 ∧ specRefund kd (.mir a) = 0 ∧
+    specDepositNoPool kd dd (.mir a) = 0 ∧ refundLegacy kd .genesis = 0 ∧ depositLegacy kd .genesis = 0 ∧
+    specRefund kd .genesis = 0 ∧ specDepositNoPool kd dd .genesis = 0 ∧
+    countNew [] [.mir a, .genesis] = 0 ∧ newPoolIds [.mir a, .genesis] = [] := by
+  simp [refundLegacy, depositLegacy, specRefund, specDepositNoPool, countNew, newPoolIds]
 
 /-- certificate builders by Go type name: amount `a`, recorded deposit 7 -/
 def namedBuilders : List (String × (Nat → Cert)) :=
